@@ -96,7 +96,17 @@ class GWorld:
                     if not inj_alive and d and d[0].state == "blk" and d[0].msg[1] == "select":
                         break          # terminal: all injections complete, daemon asleep with a positive timeout
                     if not d:
-                        out["verdict"] = "daemon died during the schedule"
+                        why = ""
+                        try:
+                            wp, ws = os.waitpid(spid, os.WNOHANG)
+                            if wp and os.WIFSIGNALED(ws) and os.WTERMSIG(ws) == signal.SIGKILL:
+                                why = ": busy loop - select() reported the trigger readable more than 20000 times in a row without the daemon doing anything about it"
+                            elif wp:
+                                why = ": exit status %r" % os.waitstatus_to_exitcode(ws)
+                            pids.remove(spid)
+                        except (ChildProcessError, ValueError):
+                            pass
+                        out["verdict"] = "daemon died during the schedule" + why
                         break
                     raise qworld.Inconclusive("no process enabled: %r" % [(p.key, p.state, p.msg) for p in sched.procs])
                 nsteps += 1
@@ -145,6 +155,10 @@ class GWorld:
             for pid in pids:
                 try:
                     os.killpg(pid, signal.SIGKILL)
+                except (ProcessLookupError, PermissionError):
+                    pass
+                try:
+                    os.kill(pid, signal.SIGKILL)      # the child may not have reached setsid() yet
                 except (ProcessLookupError, PermissionError):
                     pass
             for pid in pids:
